@@ -126,42 +126,22 @@ theorem tokEvents_chunks_irrelevant (h : cfg.fastInt = false) (hr : cfg.reader =
   rw [hrun, hrun]
   exact reader_prep_irrelevant (evAfterBom T cfg) (evAfterBom_eq T cfg h) _ _ chunks
 
-/-- on every chunking whose first read is not empty the code is the ideal reader entry -/
-theorem tokEvents_eq_ideal (chunks : List Bytes) (h : chunks.head? ≠ some []) :
-    tokEvents T cfg chunks = tokEventsIdeal T cfg chunks := by
-  unfold tokEvents
+/-- on every chunking whose first read is not empty the deviating entry is the ideal reader entry -/
+theorem tokEvents_eq_ideal (dev : Bool) (chunks : List Bytes) (h : chunks.head? ≠ some []) :
+    tokEventsWith T cfg dev chunks = tokEventsIdeal T cfg chunks := by
+  unfold tokEventsWith
   split
   · simp at h
   · rfl
 
-theorem tokEvents_noreader (chunks : List Bytes) (hr : cfg.reader = false) :
-    tokEvents T cfg chunks = tokEventsIdeal T cfg chunks := by
-  unfold tokEvents
-  simp [hr]
+/-- the code as it is (fix c109a1a applied, flag off) is the ideal reader entry on EVERY chunking -/
+theorem tokEvents_eq_ideal_now (chunks : List Bytes) : tokEvents T cfg chunks = tokEventsIdeal T cfg chunks := by
+  unfold tokEvents tokEventsWith
+  simp [emptyFirstReadNoBom]
 
-/-- so it is on the input read in one piece -/
-theorem tokEvents_single (text : Bytes) : tokEvents T cfg [text] = tokEventsIdeal T cfg [text] := by
-  cases text with
-  | cons b r => exact tokEvents_eq_ideal T cfg _ (by simp)
-  | nil =>
-    unfold tokEvents
-    split
-    · rename_i rest hc heq
-      have hrest : rest = [] := by
-        simp only [List.cons.injEq, true_and] at heq
-        exact heq.symm
-      subst hrest
-      have hr : cfg.reader = true := by
-        simp only [Bool.and_eq_true] at hc; exact hc.1
-      simp [tokEventsIdeal, hr, topUp, evAfterBom, evChunks, runChunks]
-    · rfl
-
-/-- **Chunk independence of the token-event sequence of the code as it is**: for every chunking
-whose FIRST read is not empty (the excluded chunkings are exactly those of known finding
-C17-empty-first-read-bom; with the flag `emptyFirstReadNoBom` off nothing is excluded). -/
-theorem tokEvents_go_chunks_irrelevant (h : cfg.fastInt = false) (hr : cfg.reader = true) (chunks : List Bytes)
-    (hne : chunks.head? ≠ some []) :
+/-- **Chunk independence of the token-event sequence of the code as it is**: every chunking. -/
+theorem tokEvents_go_chunks_irrelevant (h : cfg.fastInt = false) (hr : cfg.reader = true) (chunks : List Bytes) :
     tokEvents T cfg chunks = tokEvents T cfg [chunks.flatten] := by
-  rw [tokEvents_eq_ideal T cfg chunks hne, tokEvents_single, tokEvents_chunks_irrelevant T cfg h hr]
+  rw [tokEvents_eq_ideal_now, tokEvents_eq_ideal_now, tokEvents_chunks_irrelevant T cfg h hr]
 
 end OjgVerif.Match
